@@ -249,11 +249,18 @@ func lsTreeTerm(t *testing.T, dir string, name string) string {
 	if name == "objects" {
 		return "(NDir [])"
 	}
-	if name == ".git" { // only what discovery looks at when such a directory is given as a ROOT: its objects directory
-		if st, err := os.Stat(filepath.Join(dir, "objects")); err == nil && st.IsDir() {
-			return "(NDir [" + cPair(cStr("objects"), "(NDir [])") + "])"
+	if name == ".git" { // only what discovery looks at when such a directory is given as a ROOT: its .git and objects entries
+		var ch []string
+		if st, err := os.Lstat(filepath.Join(dir, ".git")); err == nil && st.IsDir() {
+			ch = append(ch, cPair(cStr(".git"), "(NDir [])"))
 		}
-		return "(NDir [])"
+		if st, err := os.Stat(filepath.Join(dir, "objects")); err == nil && st.IsDir() {
+			ch = append(ch, cPair(cStr("objects"), "(NDir [])"))
+		}
+		if len(ch) == 0 {
+			return "(NDir [])"
+		}
+		return "(NDir " + cList(ch) + ")"
 	}
 	ents, err := os.ReadDir(dir)
 	if err != nil {
@@ -694,7 +701,7 @@ func (e *lsEnv) independentDiscover(roots []string) (specs []lsSpec, colls []lsC
 			switch {
 			case specs[i].name == specs[j].name:
 				colls = append(colls, lsCollision{"name", specs[i].root == specs[j].root, specs[i], specs[j]})
-			case specs[i].source == specs[j].source:
+			case normalizeSourceOracle(specs[i].source) == normalizeSourceOracle(specs[j].source):
 				colls = append(colls, lsCollision{"source", specs[i].root == specs[j].root, specs[i], specs[j]})
 			}
 		}
@@ -1315,6 +1322,10 @@ func (e *lsEnv) collide(history *[]string) bool {
 		add(p, kind)
 		note("collide cross-root: %s ~ %s", c, p)
 		e.wantRoots = e.r.Pick3([]string{root, otherRoot}, []string{otherRoot, root}, []string{"/r1", "/r2", "/r3.git"})
+	case k < 66 && e.repos[c].kind == "work": // c/.git is itself a working tree (git directory c/.git/.git): c and c/.git are ONE source for pruning
+		lsCopyTree(e.t, filepath.Join(e.tplWork[0], ".git"), filepath.Join(e.w, c, ".git", ".git"))
+		note("nested git directory %s/.git/.git", c)
+		e.wantRoots = e.r.Pick3([]string{root, c + "/.git"}, []string{c + "/.git", root}, []string{c, c + "/.git"})
 	case k < 72: // the same directory reachable twice: overlapping roots
 		if !strings.HasPrefix(c, "/r1/team/") {
 			p := "/r1/team/" + e.r.Pick([]string{"a", "b", "c.git"})
